@@ -564,6 +564,10 @@ pub fn worker_main(prop: &dyn Prop, a: &WorkerArgs) -> i32 {
         let skipped: RefCell<BTreeMap<String, u64>> = RefCell::new(BTreeMap::new());
         let known_hits: RefCell<BTreeMap<String, (u64, Vec<u32>)>> = RefCell::new(BTreeMap::new());
         let target_sig: RefCell<Option<String>> = RefCell::new(None);
+        // shrinking is bounded in time as well (a failing case may be expensive to re-run, e.g.
+        // a process that has to be timed out): after the budget the current candidate is kept
+        let shrink_started: RefCell<Option<Instant>> = RefCell::new(None);
+        let shrink_budget = Duration::from_secs(if a.tier == Tier::Quick { 90 } else { 300 });
         let inflight_cell = RefCell::new(&mut inflight);
         let mut runner = TestRunner::new(PtConfig {
             cases: ncases as u32,
@@ -576,6 +580,9 @@ pub fn worker_main(prop: &dyn Prop, a: &WorkerArgs) -> i32 {
         let result = runner.run(&tape_strategy(prop.tape_len(a.tier)), |tape_vec| {
             write_inflight(&mut inflight_cell.borrow_mut(), b, &tape_vec);
             let shrinking = target_sig.borrow().is_some();
+            if shrinking && shrink_started.borrow().map(|t| t.elapsed() > shrink_budget).unwrap_or(false) {
+                return Ok(());
+            }
             let mut tape = Tape::new(tape_vec.clone());
             let mut c = ctx.borrow_mut();
             if !shrinking {
@@ -614,6 +621,7 @@ pub fn worker_main(prop: &dyn Prop, a: &WorkerArgs) -> i32 {
                     match &*ts {
                         None => {
                             *ts = Some(f.signature.clone());
+                            *shrink_started.borrow_mut() = Some(Instant::now());
                             Err(TestCaseError::fail(f.signature))
                         }
                         Some(s) if *s == f.signature => Err(TestCaseError::fail(f.signature)),
